@@ -19,6 +19,21 @@ CLAIMED = {
    note=TRUST + 'Assumed contracts: abstract Bound API (sample returns points inside the bound and cube; contains is a pure function of geometry; '
         'C07), evaluate_likelihood (C03), write*/accessors read-only (C11), resume restores fields (C05). Bounded stand-in (thorough): runtime monitor on 8 scenarios.',
    tech='contract-based deductive verification: AST symbolic execution + loop invariants + z3/cvc5 (self-built VC generator)', ref='7 C01'),
+ 'C10': dict(
+   text='Deductive proof on the real AST of Sampler.sample_shell / add_samples / run: every batch has exactly n_batch rows (loop exit + invariant), every row handed to '
+        'evaluate_likelihood lies in the unit cube (call precondition discharged at the call site), the counter grows by exactly n_batch per loop iteration and each '
+        'iteration starts only with n_like < n_like_max (loop step obligations), hence the total stays below n_like_max + n_batch and is unchanged when the limit was '
+        'already reached; run() returns exactly the success predicate of its exit state; the fall-through branch without a batch is shown unreachable.',
+   note=TRUST + 'Assumed contracts: evaluate_likelihood increments n_like by the number of points (body: C03), abstract Bound API returns points in the cube (C07). '
+        'time() is a fresh real per call. n_eff is modelled as a deterministic function of the three arrays it reads.',
+   tech='contract-based deductive verification: loop invariants + per-iteration step contracts, z3', ref='7 C10'),
+ 'C12': dict(
+   text='Deductive proof: explored is only ever set to True (loop step + post), in an explored pre-state one iteration of run() leaves the bound list identical, keeps every '
+        'stored row as a prefix (append-only for points and log_l) and leaves the exploration snapshot arrays untouched; after the end of exploration every shell holds at least one '
+        'sample (empty-shell removal loop invariant); the discard setter modifies only the flag and the four statistic arrays and re-establishes shell_n == size of the view for every shell.',
+   note=TRUST + '"Toggle restores bit-for-bit" rests on update_shell_info being a function of its inputs (its postcondition S1 determines the four statistics) plus the setter frame; the '
+        'composition step is argued in DESIGN.md, not machine-checked. Runtime monitor (replay leg) checks the toggle concretely.',
+   tech='contract-based deductive verification: frame conditions + loop step contracts, z3', ref='7 C12'),
  'C16': dict(
    text='Deductive proof: PhaseShift.transform equals the spec shift on periodic columns and is the identity elsewhere (loop invariant, frame, '
         'input array untouched) over the reals; range closure [0,1) proved in IEEE binary64 (z3 FP theory, numpy % semantics) for both directions; '
